@@ -130,6 +130,10 @@ def table():
     reduction("cumsum", False)
     reduction("argmax", False)
     reduction("argmin", False)
+    # the ufunc.reduce / ufunc.accumulate spellings with the axis left out (numpy's default there is axis 0, not None)
+    for nm, u in (("sum", "add"), ("prod", "multiply"), ("amax", "maximum"), ("amin", "minimum"), ("all", "logical_and"), ("any", "logical_or")):
+        T[nm + "/reduce"] = (lambda u: lambda r: ([arr(r, sh13(r), "int", lo=-2, hi=2)], lambda M, a: getattr(numpy, u).reduce(a), {"spelling": f"numpy.{u}.reduce(a)"}, ["axis"]))(u)
+    T["cumsum/accumulate"] = lambda r: ([arr(r, sh13(r), "int")], lambda M, a: numpy.add.accumulate(a), {"spelling": "numpy.add.accumulate(a)"}, [])
     T["nonzero"] = lambda r: ([arr(r, sh13(r))], lambda M, a: M.nonzero(a), {}, [])
     T["reshape"] = lambda r: ([arr(r, (2, 3))], lambda M, a: M.reshape(a, (3, 2)), {}, [])
     T["transpose"] = lambda r: ([arr(r, sh13(r))], lambda M, a: M.transpose(a), {}, [])
@@ -217,12 +221,12 @@ def run_table(ctx, monitor):
     ctx.extra["registered_functions_without_grid"] = missing
     ctx.extra["skipped"] = SKIPPED
     for nm in sorted(T):
-        if nm not in registered:
+        if nm.split("/")[0] not in registered:
             continue
         for _ in range(reps):
             arrays, f, info, tags = T[nm](rng)
             case = {"kind": "const", "function": nm, "arrays": [a.tolist() for a in arrays], "dtypes": [str(a.dtype) for a in arrays], "args": {k: (list(v) if isinstance(v, tuple) else v) for k, v in info.items()}}
-            tags = [f"fn:{nm}"] + tags + (["extreme-with-axis"] if nm in ("amax", "amin", "max", "min") and "axis" in tags else [])
+            tags = [f"fn:{nm}"] + tags + (["extreme-with-axis"] if nm.split("/")[0] in ("amax", "amin", "max", "min") and "axis" in tags else [])
             with warnings.catch_warnings():
                 warnings.simplefilter("ignore")
                 try:
